@@ -46,6 +46,8 @@ Section SelfContained.
   | Use (o : nat) (n : string) (a : arg)
   | Destroy (o : nat)
   | Mutate (o : nat) (n : string) (p : param)   (* re-parameterise o in place through the mutator n (setPrimes, read(istream&)) *)
+  | Outside (o : nat) (v : mems)   (* the owner of a constructor / setter ARGUMENT overwrites, reuses or destroys it: the members of o that
+                                      share storage with an argument (cd_arg_shared) change to anything *)
   | Env (st : mems).               (* anything else in the process: other classes, other libraries touch the statics *)
 
   Definition upd (f : nat -> option (lin * mems)) (o : nat) (v : option (lin * mems)) :=
@@ -99,6 +101,11 @@ Section SelfContained.
             else (σ, None)
         | _, _ => (σ, None)
         end
+    | Outside o v =>
+        match objs σ o with
+        | Some (l, s) => ({| objs := upd (objs σ) o (Some (l, fun x => if mem x (cd_arg_shared d) then v x else s x)); stat := stat σ |}, None)
+        | None => (σ, None)
+        end
     | Env st => ({| objs := objs σ; stat := st |}, None)
     end.
 
@@ -113,12 +120,12 @@ Section SelfContained.
 
   (* destroying (or copying, assigning to, using) one object leaves every other object as it was *)
   Definition target (e : event) : option nat :=
-    match e with Construct o _ | Copy o _ | Assign o _ | Use o _ _ | Destroy o | Mutate o _ _ => Some o | Env _ => None end.
+    match e with Construct o _ | Copy o _ | Assign o _ | Use o _ _ | Destroy o | Mutate o _ _ | Outside o _ => Some o | Env _ => None end.
   Definition Frame_stmt : Prop :=
     forall σ e o, target e <> Some o -> objs (fst (step σ e)) o = objs σ o.
   Lemma frame : Frame_stmt.
   Proof.
-    intros σ e o H. destruct e as [o1 p | o1 o2 | o1 o2 | o1 n a | o1 | o1 n p | st]; cbn [step target] in H |- *;
+    intros σ e o H. destruct e as [o1 p | o1 o2 | o1 o2 | o1 n a | o1 | o1 n p | o1 v | st]; cbn [step target] in H |- *;
       try reflexivity;
       assert (o <> o1) as Hn by (intro; subst; apply H; reflexivity).
     - cbn. apply upd_other; exact Hn.
@@ -130,6 +137,7 @@ Section SelfContained.
     - cbn. apply upd_other; exact Hn.
     - destruct (objs σ o1) as [[l0 s]|]; [|reflexivity]. destruct (find_method d n); [|reflexivity].
       destruct (m_mutator _); [|reflexivity]. cbn. apply upd_other; exact Hn.
+    - destruct (objs σ o1) as [[l0 s]|]; [|reflexivity]. cbn. apply upd_other; exact Hn.
   Qed.
 
   (* "the code respects the description" *)
@@ -198,16 +206,16 @@ Section SelfContained.
   Qed.
 
   Lemma stable_parts : forall x, stable_b d x = true ->
-    copy_ok_b d x = true /\ assign_ok_b d x = true /\ written_b d x = false /\ ctor_ok_b d x = true.
+    copy_ok_b d x = true /\ assign_ok_b d x = true /\ written_b d x = false /\ ctor_ok_b d x = true /\ arg_ok_b d x = true.
   Proof.
-    unfold stable_b; intros x H. apply andb_true_iff in H. destruct H as [H H4].
+    unfold stable_b; intros x H. apply andb_true_iff in H. destruct H as [H H5]. apply andb_true_iff in H. destruct H as [H H4].
     apply andb_true_iff in H. destruct H as [H H3].
     apply andb_true_iff in H. destruct H as [H1 H2]. apply negb_true_iff in H3. auto.
   Qed.
 
   Lemma step_inv : forall σ e, Inv σ -> Inv (fst (step σ e)).
   Proof.
-    intros σ e HI. destruct e as [o p | o' o | o' o | o n a | o | o n p' | st]; cbn [step].
+    intros σ e HI. destruct e as [o p | o' o | o' o | o n a | o | o n p' | o v | st]; cbn [step].
     - (* Construct *)
       intros o1 p1 c1 s1 H x Hx; cbn in H. unfold upd in H. destruct (Nat.eqb o1 o).
       + inversion H; subst; reflexivity.
@@ -256,6 +264,11 @@ Section SelfContained.
       destruct (mem x (cd_params d)) eqn:Ep; [|reflexivity].
       rewrite forallb_forall in Hk. unfold mem in Ep. apply existsb_exists in Ep. destruct Ep as [y [Hy Ey]].
       apply String.eqb_eq in Ey. subst y. rewrite (Hk x Hy) in Ew. discriminate.
+    - (* Outside *)
+      destruct (objs σ o) as [[[p c] s]|] eqn:Eo; [|exact HI].
+      intros o1 p1 c1 s1 H x Hx; cbn in H. unfold upd in H. destruct (Nat.eqb o1 o) eqn:E1; [|eapply HI; eauto].
+      inversion H; subst. destruct (stable_parts x Hx) as [_ [_ [_ [_ Ha]]]].
+      unfold arg_ok_b in Ha. apply negb_true_iff in Ha. rewrite Ha. eapply HI; eauto.
     - (* Env *)
       exact HI.
   Qed.
@@ -291,7 +304,7 @@ Section SelfContained.
     apply run_footprint; auto.
     intros x Hx. rewrite forallb_forall in Hst. pose proof (Hst x Hx) as Hsx.
     rewrite (reach_inv σ Hr o p c s Ho x Hsx).
-    destruct (stable_parts x Hsx) as [_ [_ [_ Hk]]]. apply init_ctx; assumption.
+    destruct (stable_parts x Hsx) as [_ [_ [_ [Hk _]]]]. apply init_ctx; assumption.
   Qed.
 
   (* the same, read as "independent of the history": two arbitrary histories, two objects of the same construction parameters *)
@@ -319,7 +332,7 @@ Section SelfContained.
   Lemma construction_determined : ConstructionDetermined_stmt.
   Proof.
     intros σ o p c' x Hx Ha. exists (init p (stat σ)). cbn. rewrite upd_same. split; [reflexivity|].
-    destruct (stable_parts x Hx) as [_ [_ [_ Hk]]]. apply init_ctx; assumption.
+    destruct (stable_parts x Hx) as [_ [_ [_ [Hk _]]]]. apply init_ctx; assumption.
   Qed.
 
 End SelfContained.
